@@ -98,8 +98,8 @@ S-c16b (C16.X6: number tokens made transparent). Caught as submitted: the other 
 message that was imprecise; the rules were made to say what is wrong (C15.R2 exactness witness, C13.R2 prefix comparison).
 S-c16b is neutralised on the current HEAD by the fix its rule led to (see its meta.json).
 
-Third round (20 changes): caught as submitted 9 (c06c, c07c, c09c, c11c, c12c, c14c, c16c, c17c, c18c, c19c count as one each;
-c10c by a rule written an hour before it arrived). Missed by the property's own check although another property's rule fired,
+Third round (20 changes): caught as submitted 11 (c06c, c07c, c09c, c11c, c12c, c14c, c16c, c17c, c18c, c19c, and c10c by a
+rule written an hour before it arrived). Missed by the property's own check although another property's rule fired,
 fixed by sharing the rule: c01c (read-loop rule under C01), c04c (level-stack safety under C04), c05c (list slot rules under
 C05). Missed outright, new rules: c02c (C02.R1b byte-wise homomorphism of the escaping writer), c03c (library calls on the cursor
 are reads: C03.R10 / C04.R1), c08c (C08.R1f half-built object handed to a destructor), c13c (C13.R7 from/path overlap table,
